@@ -82,3 +82,17 @@ Proof.
   - exact (managers_identity H int_to_string string_to_int string_to_int_fallback f32_to_string f64_to_string string_to_f32 string_to_f64 string_to_bool string_to_time string_to_span time_to_string obj_to_string arr_to_string).
 Qed.
 Print Assumptions C06_premises_hold_for_both_managers.
+
+(* State space: the objects this property's model stands for have exactly the fields the model accounts for (StateSpace.v;
+   gen/StateSpaceGen.v is regenerated from the Go sources on every run). A new field - a cache, a memo, a counter - is state
+   the model does not have, so the theorems above would no longer be about the object. *)
+From Coq Require Import String.
+Require Import StateSpaceGen StateSpace.
+Open Scope string_scope.
+Theorem C06_state_space :
+  fields_of "variants.Variant" = fields ["typ"; "value"] /\
+  fields_of "variants.AbstractVariantOperations" = fields ["Overrides"] /\
+  fields_of "variants.TypeUnsafeVariantOperations" = fields ["embedded *AbstractVariantOperations"] /\
+  fields_of "variants.TypeSafeVariantOperations" = fields ["embedded *AbstractVariantOperations"].
+Proof. vm_compute. repeat split; reflexivity. Qed.
+Print Assumptions C06_state_space.
